@@ -255,6 +255,8 @@ func runUDPHistory(r *vrng, h uhist) (sig, desc, summary string) {
 func TestVerifUDP(t *testing.T) {
 	out := vopen(t, "udp")
 	defer out.close()
+	tr := vopen(t, "utrace")
+	defer tr.close()
 	r := &vrng{vseed()*179424673 + 11}
 	n := vcount(24)
 	stats := map[string]int{}
@@ -262,7 +264,12 @@ func TestVerifUDP(t *testing.T) {
 		h := uhist{clients: r.pick(1, 2, 3, 6), mode: []string{"echo", "quick", "closeLinger", "partial"}[i%4], perCl: r.pick(3, 8, 40, 120), burst: r.intn(2) == 0}
 		fmt.Fprintf(out.cases, "udp clients=%d mode=%s per=%d burst=%v\n", h.clients, h.mode, h.perCl, h.burst)
 		out.cases.Flush()
+		rec := startHookRec("u.")
 		sig, desc, sum := runUDPHistory(r, h)
+		ev := rec.stop()
+		fmt.Fprintf(tr.cases, "utrace %d %s\n", len(ev), strings.Join(ev, " "))
+		fmt.Fprintln(tr.out, "accepted")
+		stats["hook-events"] += len(ev)
 		if sig != "" {
 			out.fail(i, sig, desc)
 			fmt.Fprintf(out.out, "FAIL %s\n", sig)
